@@ -111,4 +111,27 @@ def cryptBlock (c : Cipher) (dst src : Bytes) (decrypt : Bool) : Except Fault (C
 def Cipher.encrypt (c : Cipher) (dst src : Bytes) := cryptBlock c dst src false
 def Cipher.decrypt (c : Cipher) (dst src : Bytes) := cryptBlock c dst src true
 
+/-- one call on the object -/
+inductive Op where
+  | enc (dst src : Bytes)
+  | dec (dst src : Bytes)
+
+def Op.src : Op → Bytes
+  | .enc _ s => s
+  | .dec _ s => s
+def Op.dst : Op → Bytes
+  | .enc d _ => d
+  | .dec d _ => d
+
+/-- run a history; results are the contents of `dst` after each call (or the fault) -/
+def run : Cipher → List Op → List (Except Fault Bytes)
+  | _, [] => []
+  | c, op :: ops =>
+    let r := match op with
+      | .enc d s => c.encrypt d s
+      | .dec d s => c.decrypt d s
+    match r with
+    | .ok (c', out) => .ok out :: run c' ops
+    | .error f => .error f :: run c ops
+
 end Model.SM4
